@@ -201,7 +201,9 @@ func c04Wrap(cell *spec.Node, ctx int) (root *spec.Node, wrapData func(any) any,
 		sl := &spec.Node{Kind: spec.Slice, Elem: cell}
 		root = &spec.Node{Kind: spec.Struct, ExtraFields: extra, Fields: []spec.Field{{Key: "l", GoName: "L", Node: sl}, {Key: "other", GoName: "Other", Node: other()}}}
 		wrapData = func(v any) any { return map[string]any{"l": []any{unmiss(v)}, "other": "o"} }
-		wrapVal = func(v any) any { return map[string]any{"L": []any{v}, "Other": "o", "XUntouchedS": "sentinel-untouched"} }
+		wrapVal = func(v any) any {
+			return map[string]any{"L": []any{v}, "Other": "o", "XUntouchedS": "sentinel-untouched"}
+		}
 	}
 	if ctx == 7 {
 		// the record is a Go struct value whose field F has exactly the dynamic type of the input (so 0, false, zero time are typed zero values)
@@ -240,7 +242,9 @@ func c04Wrap(cell *spec.Node, ctx int) (root *spec.Node, wrapData func(any) any,
 			}
 			return m
 		}
-		wrapVal = func(v any) any { return map[string]any{"A": "x", "F": v, "Z": "valid value", "XUntouchedS": "sentinel-untouched"} }
+		wrapVal = func(v any) any {
+			return map[string]any{"A": "x", "F": v, "Z": "valid value", "XUntouchedS": "sentinel-untouched"}
+		}
 	}
 	root.Number()
 	return
